@@ -7,11 +7,12 @@ if [ "$REPO" != "/repo" ]; then sed -i "s#\"/repo/#\"$REPO/#g" harness/Cargo.tom
 mkdir -p out
 for s in "$@"; do
   pid=${s%%-*}
-  if ! git -C $REPO apply --check seeded/$s/patch.diff 2>/dev/null; then echo "SEED $s: patch does not apply"; continue; fi
-  git -C $REPO apply seeded/$s/patch.diff
+  if [ ! -f seeded/$s/patch.diff ]; then echo "SEED $s: no patch"; continue; fi
+  if ! patch -p1 --dry-run -s -d $REPO < seeded/$s/patch.diff >/dev/null 2>&1; then echo "SEED $s: patch does not apply"; continue; fi
+  patch -p1 -s -d $REPO < seeded/$s/patch.diff
   t0=$(date +%s)
   ./check $pid --tier ${SEED_TIER:-quick} > out/seed-$s.log 2>&1; rc=$?
-  git -C $REPO checkout -- .
+  patch -R -p1 -s -d $REPO < seeded/$s/patch.diff
   sig=$(grep -A1 '^VIOLATION' out/seed-$s.log | grep signature | head -3 | cut -c1-160 | tr '\n' ';')
   echo "SEED $s: rc=$rc $(( $(date +%s) - t0 ))s $sig"
 done
